@@ -1454,7 +1454,12 @@ func FunExpr(query *Query, current Map, expr *sqlparser.FuncExpr, opts ...ExprOp
 				}()
 				rs, err = function(query, current, nil, slice)
 			}()
-			return &rs, err
+			// the outcome is known only after the wait: post-processors run after
+			// wg.Wait (also those handed over to an enclosing query)
+			query.addPostProcessors(func() error {
+				return err
+			})
+			return &rs, nil
 		}
 	case "spin":
 		{
